@@ -9,7 +9,7 @@ packet, with the specified wire type and repeatability. encode-schema: every pro
 (helpers, hand written put_u8+value, User Properties, Reason String) has an identifier allowed in that
 packet and a field of the specified wire type. id-field: the field an identifier is decoded into is the
 field it is encoded from (decoder's struct literal vs encoder's emission), for every packet type.
-wire-order: for 18 packet types the longest success path of the encoder and of the decoder are reduced to sequences of wire tokens (u8/u16/u32/str/bin/varint/PROPS/loops) with the struct field at each position, and must be equal (same types in the same order, same field where both sides name one). layout-size: the symbolic size/emission equivalence of C09 (every encode writes exactly the fields its
+wire-order: for 18 packet types the longest success path of the encoder and of the decoder are reduced to sequences of wire tokens (u8/u16/u32/str/bin/varint/PROPS/loops) with the struct field at each position, and must be equal (same types in the same order, same field where both sides name one) and equal to the layout transcribed from the specification (spec/mqtt_layouts.json). layout-size: the symbolic size/emission equivalence of C09 (every encode writes exactly the fields its
 size function counts) and frame exhaustion of C02 (decoders accept a frame only when all of its bytes
 were read) are imported. Equality of concrete values after a round trip is not decided."""
 import os, json
@@ -926,6 +926,7 @@ V3_PAIRS = [
 def wire_order(F, R, sf):
     n = 0
     table = {}
+    layouts = load('mqtt_layouts.json')
     pairs = [(nm, efn, None, dfn, adt) for nm, efn, dfn, adt in WIRE_PAIRS]
     v3adt = F.adts['v3::codec::packet::Packet']
     v3idx = {v['name']: v.get('discr', i) for i, v in enumerate(v3adt['variants'])}
@@ -961,6 +962,9 @@ def wire_order(F, R, sf):
         et = [t for t, f in enc]
         dt = [t for t, f in dec]
         table[name] = dict(encoder=['%s%s' % (t, (':' + f) if f else '') for t, f in enc], decoder=['%s%s' % (t, (':' + f) if f else '') for t, f in dec])
+        want = layouts.get(name)
+        if want is not None:
+            R.ob('C01.wire-order', '%s|encoder-follows-the-specified-layout' % name, et == want.split(), 'encoder writes %s, the specification lays the packet out as %s' % (' '.join(et), want), F.bodies[efn].loc(0))
         R.ob('C01.wire-order', '%s|same-sequence-of-wire-types' % name, et == dt, 'encoder writes %s, decoder reads %s' % (' '.join(et), ' '.join(dt)), F.bodies[efn].loc(0))
         if et == dt:
             bad = []
